@@ -90,7 +90,7 @@ def build_case(r, name, meta, tup, ff, md, sp, cosmo, n=6, override=True, delta=
             pass
     calls = list({(a, b): (a, b, c) for a, b, c in calls}.values())
     return obj, env, calls, {"fit": name, "z": float(z), "delta_c": dc, "delta_halo": base["delta_halo"], "delta_halo_traced": (None if dh_traced is None else float(dh_traced)),
-                             "mdef": str(mdef), "Om0": float(cosmo.Om0), "params": params, "fsigma_isolated": iso_f,
+                             "mdef": str(mdef), "Om0": float(cosmo.Om0), "params": params, "fsigma_isolated": (None if iso_f is None else iso_f.tolist()),
                              "sigma": sigma.tolist(), "m": m.tolist(), "n_eff": neff.tolist()}, env_for
 
 
@@ -153,9 +153,9 @@ def run(ctx):
                 if bad_p and not any(v["key"] == f"{name}/override-not-applied" for v in out["violations"]):
                     out["violations"].append({"key": f"{name}/override-not-applied", "what": f"{name}: user-supplied model parameter {bad_p[0]}={desc['params'][bad_p[0]]!r} is not what the instance uses (params[{bad_p[0]!r}] = {obj.params.get(bad_p[0])!r})",
                                               "replay": {"kind": "c06", "fit": name, "overrides": {k_: repr(v_) for k_, v_ in desc["params"].items()}}})
-                if desc.get("fsigma_isolated") is not None and not np.allclose(got, desc["fsigma_isolated"], rtol=1e-12, equal_nan=True):
+                if desc.get("fsigma_isolated") is not None and not np.allclose(got, np.asarray(desc["fsigma_isolated"], float), rtol=1e-12, equal_nan=True):
                     if not any(v["key"] == f"{name}/depends-on-earlier-instances" for v in out["violations"]):
-                        out["violations"].append({"key": f"{name}/depends-on-earlier-instances", "what": f"{name} at z={desc['z']}, Om0={desc['Om0']}: f(sigma) differs by up to {float(np.nanmax(np.abs(got / desc['fsigma_isolated'] - 1))):.3g} from the same instance inputs with the (identical) cosmology given under another name, after an instance with a different cosmology of the same astropy name was evaluated",
+                        out["violations"].append({"key": f"{name}/depends-on-earlier-instances", "what": f"{name} at z={desc['z']}, Om0={desc['Om0']}: f(sigma) differs by up to {float(np.nanmax(np.abs(got / np.asarray(desc['fsigma_isolated'], float) - 1))):.3g} from the same instance inputs with the (identical) cosmology given under another name, after an instance with a different cosmology of the same astropy name was evaluated",
                                                   "replay": {"kind": "c06", "case": {k_: v_ for k_, v_ in desc.items() if k_ not in ("sigma", "m", "n_eff", "fsigma_isolated")}}})
                 tr_ = desc.get("delta_halo_traced")
                 if tr_ is not None and not np.isclose(tr_, desc["delta_halo"], rtol=1e-12):
